@@ -610,7 +610,9 @@ class BrownianInterval(brownian_base.BaseBrownian, _Interval):
         if ta > tb:
             raise RuntimeError(f"Query times ta={ta:.3f} and tb={tb:.3f} must respect ta <= tb.")
 
-        if ta == tb:
+        # Compare the times as resolved to the tolerance grid: an interval that collapses to a point there cannot be
+        # located in the tree (in dyadic mode the search for it never terminates).
+        if self._round(ta) == self._round(tb):
             W = torch.zeros(self._size, dtype=self._dtype, device=self._device)
             H = None
             A = None
